@@ -21,7 +21,7 @@ Definition dec_wresp (s : sexp) : option wresp :=
   end.
 
 Definition dec_sclass (s : sexp) : option sclass :=
-  match s with A 0 => Some SUrl | A 1 => Some SNode | A 2 => Some SBad | _ => None end.
+  match s with A 0 => Some SUrl | A 1 => Some SNode | A 2 => Some SBad | A 3 => Some SPass | _ => None end.
 
 Definition dec_world (s : sexp) : option world :=
   match s with
